@@ -118,7 +118,7 @@ var txCalls = []txCall{
 
 // expectations per transaction state
 func txWant(state, call string) want {
-	finished := state == "committed" || state == "rolledback" || state == "closed" || state == "failedcommit"
+	finished := state == "committed" || state == "rolledback" || state == "closed" || state == "failedcommit" || state == "committed+checkpoint" || state == "rolledback+checkpoint"
 	switch {
 	case finished:
 		switch call {
@@ -251,7 +251,8 @@ func handleMisuse(raw []byte) interface{} {
 		res.States = append(res.States, state)
 	}
 
-	txStates := []string{"active", "readonly", "readonly+writer", "committed", "rolledback", "closed", "failedcommit"}
+	// "+checkpoint": the transaction ran CheckpointWAL before it ended (per-transaction flags that survive the end)
+	txStates := []string{"active", "readonly", "readonly+writer", "committed", "rolledback", "closed", "failedcommit", "committed+checkpoint", "rolledback+checkpoint"}
 	pageStates := []string{"finished-tx", "readonly-tx", "freed", "flushed", "dirty", "new-empty", "clean"}
 
 	// runCase replays the prefix, prepares a receiver, calls every method once
@@ -435,10 +436,15 @@ func handleMisuse(raw []byte) interface{} {
 					}
 				}
 			}
+			if st == "committed+checkpoint" || st == "rolledback+checkpoint" {
+				tx.CheckpointWAL()
+			}
 			switch st {
 			case "active":
 				return tx, nil, ids, true
-			case "committed":
+			case "rolledback+checkpoint":
+				tx.Rollback()
+			case "committed", "committed+checkpoint":
 				if ids.freed != 0 {
 					delete(e.M.Pages, ids.freed)
 				}
